@@ -117,6 +117,12 @@ def gen(g, count):
             add('reg %s plain(sub)' % tname, ['reg'], s=dict(ts, noColor=True))
         add('reg no-totals', ['reg'], gflags={'noColor': True}, s={'noTotals': True})
         add('reg totals-only', ['reg'], gflags={'noColor': True}, s={'totalsOnly': True})
+        # the same two switches, and both together, under the other two layouts
+        for tname, ts in (('left', {'template': 'left-aligned'}), ('old', {'oldReg': True})):
+            add('reg %s no-totals' % tname, ['reg'], gflags={'noColor': True}, s=dict(ts, noTotals=True))
+            add('reg %s totals-only' % tname, ['reg'], gflags={'noColor': True}, s=dict(ts, totalsOnly=True))
+        for tname, ts in (('default', {}), ('left', {'template': 'left-aligned'}), ('old', {'oldReg': True})):
+            add('reg %s totals-only no-totals' % tname, ['reg'], gflags={'noColor': True}, s=dict(ts, totalsOnly=True, noTotals=True))
         add('reg shorten', ['reg'], gflags={'noColor': True}, s={'shorten': True})
         add('reg shorten colour', ['reg'], s={'shorten': True})
         add('summary colour', ['summary'], args=(log[0][0].strftime('%Y/%m/%d'),))
@@ -171,6 +177,15 @@ def judge(ctx, groups, impl):
             if not (d0 == d1 == d2):
                 bad(grp, 'reg left plain', 'default / left-aligned / old register do not show the same records and numbers',
                     {'default': repr(d0)[:1200], 'left': repr(d1)[:1200], 'old': repr(d2)[:1200]}, 'templates-differ')
+            # ... and so do they under --no-totals, --totals-only and both
+            for mode in ('no-totals', 'totals-only', 'totals-only no-totals'):
+                k0 = 'reg %s' % mode if mode != 'totals-only no-totals' else 'reg default %s' % mode
+                m0 = norm_days(spec.parse_register_default(o[k0]))
+                m1 = norm_days(parse_left(o['reg left %s' % mode]))
+                m2 = norm_days(spec.parse_register_default(o['reg old %s' % mode]))
+                if not (m0 == m1 == m2):
+                    bad(grp, 'reg old %s' % mode, 'default / left-aligned / old register do not show the same records and numbers under --%s' % mode.replace(' ', ' --'),
+                        {'default': repr(m0)[:1000], 'left': repr(m1)[:1000], 'old': repr(m2)[:1000]}, 'templates-differ')
             # default = no-totals and totals-only interleaved per day
             D, A, B = blocks(o['reg default plain']), blocks(o['reg no-totals']), blocks(o['reg totals-only'])
             ok = len(D) == len(A) == len(B) and all(d == a + b[1:] and a[0] == b[0] for d, a, b in zip(D, A, B))
